@@ -314,12 +314,13 @@ func c18Obs(src string) string {
 // ---- generation ----
 
 type c18G struct {
-	r    *Rng
-	next int
-	ints []string
-	strs []string
-	arrs []string
-	fns  []string
+	r      *Rng
+	script bool // pure code: no text, no output tags, no printing blocks; values are shown with out(e)
+	next   int
+	ints   []string
+	strs   []string
+	arrs   []string
+	fns    []string
 }
 
 func (g *c18G) id() int { g.next++; return g.next }
@@ -500,7 +501,7 @@ func (g *c18G) stmt(sc c18Scope) *c18Stmt {
 		s.Elems = c18T(append(append(append([]string{"add", "("}, g.intE(1)...), ","), append(g.intE(0), ")")...)...)
 	case k < 64: // if
 		s.Owner = "if"
-		s.Print = sc.print && g.r.Chance(60)
+		s.Print = sc.print && g.r.Chance(60) && !g.script
 		sub := sc
 		sub.depth++
 		sub.print = s.Print
@@ -522,7 +523,7 @@ func (g *c18G) stmt(sc c18Scope) *c18Stmt {
 		}
 	case k < 76: // for
 		s.Owner = "for"
-		s.Print = sc.print && g.r.Chance(60)
+		s.Print = sc.print && g.r.Chance(60) && !g.script
 		sub := sc
 		sub.depth++
 		sub.inLoop = true
@@ -566,6 +567,10 @@ func (g *c18G) stmt(sc c18Scope) *c18Stmt {
 		if !c18Has17(g.fns, f) {
 			g.fns = append(g.fns, f)
 		}
+	case k < 94 && !sc.inFn && g.script: // a visible effect
+		s.Elems = c18T(append(append([]string{"out", "("}, g.anyE(2)...), ")")...)
+	case !sc.inFn && g.script:
+		s.Elems = c18T("out", "(", Pick(g.r, []string{`"x"`, `" "`, `"# no comment"`, `"%>"`, `"<%"`, "`\n`"}), ")")
 	case k < 94 && !sc.inFn: // output tag
 		s.Kind = 'E'
 		s.Elems = c18T(g.anyE(2)...)
@@ -596,11 +601,18 @@ func (g *c18G) seq(sc c18Scope, n int) []*c18Stmt {
 	return out
 }
 
-func c18Gen(r *Rng, n int) []*c18Stmt {
-	g := &c18G{r: r, ints: []string{"a", "b", "n"}, strs: []string{"s", "t"}, arrs: []string{"xs", "ys"}}
+func c18Gen(r *Rng, n int) []*c18Stmt { return c18GenMode(r, n, false) }
+
+// script = true: a pure-code program (the text of a plush script); effects are calls of out(e)
+func c18GenMode(r *Rng, n int, script bool) []*c18Stmt {
+	g := &c18G{r: r, script: script, ints: []string{"a", "b", "n"}, strs: []string{"s", "t"}, arrs: []string{"xs", "ys"}}
 	prog := g.seq(c18Scope{print: true}, n)
 	// observe the variables at the end
 	for _, v := range []string{Pick(r, g.ints), Pick(r, g.ints), Pick(r, g.strs), Pick(r, g.arrs)} {
+		if script {
+			prog = append(prog, &c18Stmt{ID: g.id(), Kind: 's', Elems: c18T("out", "(", v, ")")})
+			continue
+		}
 		prog = append(prog, &c18Stmt{ID: g.id(), Kind: 'H', Text: "/"}, &c18Stmt{ID: g.id(), Kind: 'E', Elems: c18T(v)})
 	}
 	return prog
@@ -713,13 +725,14 @@ type c18Found struct {
 	prog   []*c18Stmt
 	layout *c18Layout
 	shape  string
+	ent    *c18Ent // the entry point the texts go through; nil = plush.Render (oracle_c18_entry.go)
 }
 
-func c18Differs(prog []*c18Stmt, l *c18Layout, shape string) bool {
+func c18Differs(ent *c18Ent, prog []*c18Stmt, l *c18Layout, shape string) bool {
 	var items []c18It
 	c18Flatten(prog, &items)
-	a := c18Obs(c18Render(items, c18NewLayout()))
-	b := c18Obs(c18Render(items, l))
+	a := ent.obs(ent.text(items, c18NewLayout()))
+	b := ent.obs(ent.text(items, l))
 	return a != b && c18Shape(a, b) == shape
 }
 
@@ -775,7 +788,7 @@ func c18Shrink(f c18Found) c18Found {
 			return false
 		}
 		budget--
-		return c18Differs(p, l, f.shape)
+		return c18Differs(f.ent, p, l, f.shape)
 	}
 	for changed := true; changed && budget > 0; {
 		changed = false
@@ -837,7 +850,7 @@ func c18Shrink(f c18Found) c18Found {
 	// forget entries that belong to deleted statements
 	var items []c18It
 	c18Flatten(f.prog, &items)
-	live := map[int]bool{}
+	live := map[int]bool{0: true} // 0: the edges of a script (oracle_c18_entry.go)
 	for _, it := range items {
 		live[it.ID] = true
 	}
@@ -1011,6 +1024,9 @@ func init() {
 			"'# comment' inside a statement (between two tokens that are not at a statement boundary) is generated in a third of the random layouts; the statement text names comments 'between statements' only, so such findings appear under gap-line-comment[...] family ids of their own",
 			"errors are compared after deleting every 'line N: ' prefix",
 			"the exhaustive cut/merge enumeration covers all boundaries of a program (nested ones included) when there are at most 7; with more, 3 fixed patterns (all cut, all merged with LF, all merged with ';') and random ones")
+		if strings.HasPrefix(cfg.Arg, c18EntryPrefix) {
+			return []*Report{c18EntryReplay(cfg)}
+		}
 		if cfg.Arg != "" {
 			m := c18CaseRe.FindStringSubmatch(cfg.Arg)
 			if m == nil {
@@ -1105,6 +1121,6 @@ func init() {
 				c18Report(rep, f, false)
 			}
 		}
-		return []*Report{rep}
+		return []*Report{rep, c18EntryStream(cfg)}
 	}
 }
